@@ -494,8 +494,14 @@ def unrle(r):
     return out
 
 
-def base_cases(rng, n_any, n_valid, tiny_p=0.5):
-    for _ in range(n_any):
+def base_cases(rng, n_any, n_valid, tiny_p=0.5, rich_every=0):
+    for k in range(n_any):
+        if rich_every and k % rich_every == 0:      # every table has 2..4 rows, a reference sequence is present
+            d = gen_desc(rng, maxrows=4, minrows=2)
+            if d["refseq"] is None:
+                d["refseq"] = {"data": "ACGT", "url": "u", "metadata": "7b7d", "metadata_schema": ""}
+            yield d, False
+            continue
         yield gen_desc(rng, maxrows=rng.choice([1, 2, 3]), tiny=rng.random() < tiny_p), False
     for _ in range(n_valid):
         yield valid_ts_desc(rng), True
@@ -774,7 +780,7 @@ class Multi(CorruptFamily):
 
     def generate(self, rng, tier):
         n_any, n_valid = (6, 2) if tier == "quick" else (60, 20)
-        for k, (desc, valid) in enumerate(base_cases(rng, n_any, n_valid, tiny_p=0.6)):
+        for k, (desc, valid) in enumerate(base_cases(rng, n_any, n_valid, tiny_p=0.6, rich_every=3)):
             if k % 2 == 0 and desc["indexes"] is None:      # every other base file carries an index
                 ne = desc["tables"]["edges"]["n"]
                 z = "".join(struct.pack("<i", x).hex() for x in range(ne))
@@ -823,6 +829,11 @@ class Multi(CorruptFamily):
                 for v in (0, cur - 1, cur + 1, cur + 8, cur - 8, M - 1, 2 ** 63, cur + 2 ** 32, fs, M - cur):
                     if v % M != cur and 0 <= v % M:
                         eds.append([field(d + off, 8, v)])
+        # the type byte of EVERY item replaced by each other type of the same element size
+        same = {0: [1], 1: [0], 2: [3], 3: [2], 4: [5, 8], 5: [4, 8], 8: [4, 5], 6: [7, 9], 7: [6, 9], 9: [6, 7]}
+        for j, it in enumerate(items):
+            for t in same.get(it["type"], []):
+                eds.append([field(64 + 64 * j, 1, t)])
         # all fixed-width columns of one table wrapped consistently (k * 2^62 more rows)
         for tname in ("nodes", "edges", "sites", "mutations", "migrations", "individuals", "populations",
                       "provenances"):
@@ -959,7 +970,7 @@ class Data(CorruptFamily):
 
     def generate(self, rng, tier):
         n_any, n_valid = (8, 8) if tier == "quick" else (100, 100)
-        for k, (desc, valid) in enumerate(base_cases(rng, n_any, n_valid, tiny_p=0.2)):
+        for k, (desc, valid) in enumerate(base_cases(rng, n_any, n_valid, tiny_p=0.2, rich_every=2)):
             yield {"desc": desc, "env": pick_env(rng, valid, k + 2), "seed": rng.randrange(2 ** 30),
                    "n": 250 if tier == "quick" else 600}
 
